@@ -275,6 +275,7 @@ impl Monitor for C07 {
         vec![
             "relay_ok_admin",
             "execute_calls_sent_by_the_proxy_itself",
+            "execute_calls_built_with_the_package_helper",
             "relay_ok_subkey",
             "relay_refused_subkey",
             "relay_refused_stranger",
@@ -354,6 +355,14 @@ impl Monitor for C07 {
             p.attach = if h.rng.clone().chance(1, 7) { vec![cosmwasm_std::coin(1 + (i as u128 % 50), "uatom")] } else { vec![] };
             if !p.attach.is_empty() && matches!(op, Op::Execute { .. }) {
                 h.out.count("execute_calls_with_funds_attached");
+            }
+            // a quarter of the calls are built with the packaged client helper (Cw1Contract::execute)
+            let mut side2 = h.rng.clone();
+            side2.below(77);
+            side2.below(1000);
+            p.via_helper = side2.chance(1, 4);
+            if p.via_helper && matches!(op, Op::Execute { .. }) {
+                h.out.count("execute_calls_built_with_the_package_helper");
             }
             // now and then the call arrives from the proxy's own address (a relayed message addressed to itself):
             // the proxy is a caller like any other and needs the same authority
